@@ -18,12 +18,14 @@ package loader
 //@   check counts_bytes_delivered [C15]: c.c.totalRead == wrap_u64(old(c.c.totalRead) + result0)
 
 //@ func TeeingLinkSystem
+//@   ensures starts_at_the_given_offset [C15]: cur(wo).size == initialOffset && cur(wo).code == indexCodec && ref(cur(wo).w) == ref(w)
 //@   closure[0]
 //@     let n0, c, cerr := call[cid.CidFromBytes#0]
 //@     call[maplookup#0] assert dedup_by_cid [C15]: key == c
 //@   end
 
 //@ func CountingLinkSystem
+//@   ensures counts_from_zero [C15]: cur(c).totalRead == 0
 //@   closure[0]
 //@     let vbytes := call[varint.ToUvarint#0]
 //@     let n, rerr := call[Buffer.ReadFrom#0]
@@ -34,3 +36,16 @@ package loader
 //@     call[varint.ToUvarint#0] assert section_length [C15]: arg0 == wrap_u64(wrap_u64(n) + len(lbin))
 //@     check counts_prefix_and_cid [C15]: err == nil ==> c.totalRead == wrap_u64(old(c.totalRead) + wrap_u64(len(vbytes) + len(lbin)))
 //@   end
+
+//@ func (*counter).Size
+//@   ensures def [C15]: result == c.totalRead
+
+//@ func (*writerOutput).Size
+//@   ensures def [C15]: result == w.size
+
+//@ func (*writerOutput).Index
+//@   let idx, nerr := call[index.New#0]
+//@   call[index.New#0] assert configured_codec [C05,C15]: arg0 == w.code
+//@   call[append#0] assert every_record [C15]: ref(arg0) == ref(rcrds) && len(arg1) == 1 && arg1[0] == r
+//@   call[Index.Load#0] assert loads_all_records_into_that_index [C15]: ref(arg0) == ref(idx) && ref(arg1) == ref(rcrds)
+//@   ensures that_index [C15]: err == nil ==> ref(result0) == ref(idx)
